@@ -233,6 +233,36 @@ func cmdTLD(args []string) {
 		probe(0, lab, []time.Time{far[1], time.Date(2020, 1, 1, 0, 0, 0, 0, time.UTC)})
 		lintProbe(0, "host."+lab, false, time.Date(2020, 1, 1, 0, 0, 0, 0, time.UTC))
 	}
+	// look-alikes of table keys that are not table keys: the comparison is case-insensitive and nothing else - no compatibility
+	// folding (full-width letters, the roman numeral m), no removal of ignorable code points (soft hyphen, zero width space),
+	// no other full stop than '.' (a label containing an ideographic full stop is one label)
+	var alike []string
+	for idx, e := range tbl {
+		k := e.Key
+		if k == "" || strings.ToLower(k) != k || strings.HasPrefix(k, "xn--") || !(k == "com" || k == "net" || k == "org" || k == "de" || idx%97 == int(seed)%97) {
+			continue
+		}
+		ascii := true
+		var fw []rune
+		for _, r := range k {
+			if r < 'a' || r > 'z' {
+				ascii = false
+				break
+			}
+			fw = append(fw, r-'a'+0xff41)
+		}
+		if !ascii {
+			continue
+		}
+		alike = append(alike, string(fw), k[:1]+"\u00ad"+k[1:], k[:len(k)-1]+"\u200b"+k[len(k)-1:], "example\u3002"+k, "example\uff0e"+k)
+		if strings.HasSuffix(k, "m") {
+			alike = append(alike, k[:len(k)-1]+"\u217f")
+		}
+	}
+	for _, lab := range alike {
+		probe(0, lab, []time.Time{far[1], time.Date(2020, 1, 1, 0, 0, 0, 0, time.UTC)})
+		lintProbe(0, "host."+lab, false, time.Date(2020, 1, 1, 0, 0, 0, 0, time.UTC))
+	}
 	// names that read as IP addresses: as a dNSName they are names like any other (their right-most label is in no table);
 	// only a common name that is an IP address is exempt
 	for _, lit := range []string{"192.168.1.10", "10.0.0.1", "8.8.8.8", "2001:db8::1", "::1", "1.2.3.4.5", "256.1.1.1",
@@ -243,6 +273,6 @@ func cmdTLD(args []string) {
 	_ = rng
 	n := w.N
 	w.Close()
-	ev.WriteJSON(out("summary.json"), ev.M{"entries": len(tbl), "probes": nprobes, "lint_runs": nlint, "boundary_entries": boundaryHits, "events": n,
+	ev.WriteJSON(out("summary.json"), ev.M{"entries": len(tbl), "probes": nprobes, "lint_runs": nlint, "boundary_entries": boundaryHits, "lookalike_labels": len(alike), "events": n,
 		"template": tmpl != nil, "sample": ev.M{"ev": "Probe", "label": tbl[len(tbl)/2].Key, "deleg": tbl[len(tbl)/2].Deleg, "removal": tbl[len(tbl)/2].Removal}})
 }
